@@ -339,6 +339,8 @@ pub mod blake3 {
 
     pub const OUT_LEN: usize = 32;
 
+    pub const KEY_LEN: usize = 32;
+
     pub const BLOCK_LEN: usize = 64;
 
     // blake3::Hasher as seen by b3sum's hash_path: a mode (key / flags) and the bytes absorbed so far. ASSUMED here, each
@@ -353,10 +355,44 @@ pub mod blake3 {
 
     pub uninterp spec fn sp_stream_id(mode: int, absorbed: Seq<u8>) -> int;
 
+    pub uninterp spec fn sp_mode_hash() -> int;
+
+    pub uninterp spec fn sp_mode_keyed(key: Seq<u8>) -> int;
+
+    pub uninterp spec fn sp_mode_derive(context: Seq<char>) -> int;
+
     impl Hasher {
         pub uninterp spec fn mode(&self) -> int;
 
         pub uninterp spec fn absorbed(&self) -> Seq<u8>;
+
+        // the three constructors: the mode is a function of (nothing / the key / the context string), nothing absorbed
+        #[verifier::external_body]
+        pub fn new() -> (r: Hasher)
+            ensures
+                r.mode() == sp_mode_hash(),
+                r.absorbed() == Seq::<u8>::empty(),
+        {
+            unimplemented!()
+        }
+
+        #[verifier::external_body]
+        pub fn new_keyed(key: &[u8; 32]) -> (r: Hasher)
+            ensures
+                r.mode() == sp_mode_keyed(key@),
+                r.absorbed() == Seq::<u8>::empty(),
+        {
+            unimplemented!()
+        }
+
+        #[verifier::external_body]
+        pub fn new_derive_key(context: &str) -> (r: Hasher)
+            ensures
+                r.mode() == sp_mode_derive(context@),
+                r.absorbed() == Seq::<u8>::empty(),
+        {
+            unimplemented!()
+        }
 
         #[verifier::external_body]
         pub fn vf_update_reader<R: crate::VfSource>(&mut self, reader: R) -> (r: crate::VfResult<()>)
@@ -690,3 +726,28 @@ pub fn vf_path_is_dash(path: &std::path::Path) -> (r: bool)
 {
     unimplemented!()
 }
+
+// ---- Args::parse (C12): the pieces of std it uses ------------------------------------------------------------
+// `vec!["-".into()]`: one PathBuf built from the string "-"
+pub uninterp spec fn sp_dash_pathbuf() -> std::path::PathBuf;
+
+#[verifier::external_body]
+pub fn vf_dash_paths() -> (r: Vec<std::path::PathBuf>)
+    ensures
+        r@ == seq![sp_dash_pathbuf()],
+        sp_pathbuf_str(sp_dash_pathbuf()) == "-"@,
+{
+    unimplemented!()
+}
+
+// `Vec<PathBuf>::clone`
+#[verifier::external_body]
+pub fn vf_clone_paths(v: &Vec<std::path::PathBuf>) -> (r: Vec<std::path::PathBuf>)
+    ensures
+        r@ == v@,
+{
+    unimplemented!()
+}
+
+// the 32 key bytes --keyed reads from stdin
+pub uninterp spec fn sp_stdin_key() -> Seq<u8>;
